@@ -1,5 +1,5 @@
 // C04 (unit level, no graph): modified / valid / last-modified-time tell the truth for producers and
-// consumers.  A real TSOutput of shape SHAPE is written by a bounded scripted producer; three real
+// consumers.  A real TSOutput of each of eight shapes (enumerated) is written by a bounded scripted producer; three real
 // TSInput consumers are bound to it (c0 passive, c1 active with a notifier, c2 bound one cycle late).
 // After every cycle (at the cycle time T) and at the following idle instant (T+1) the flags of the
 // producer view, of every consumer view and of every child position are compared with a mirror model.
@@ -23,7 +23,7 @@
 #define NCYC 2  // cycles (TS / SIGNAL / TSW run NCYC+1)
 #endif
 #ifndef BIG_LAST
-#define BIG_LAST NOPS  // operations in the last cycle of the two widest shapes (TSD, TSD<int,TSB>)
+#define BIG_LAST NOPS  // operations in the last cycle of the widest shapes (TSD, TSD<int,TSB>, TSW)
 #endif
 #ifndef NOPS
 #define NOPS 2
